@@ -30,7 +30,9 @@ def value_sets(tier):
     kws = KEYWORDS if tier == "thorough" else KEYWORDS
     sets += [[k, "UPPER"] for k in kws]
     sets += [["UPPER", "lower", "mixedCase", "snake_case"], ["type", "Type", "TYPE"], ["fn", "match", "self", "crate"],
-             ["A", "a"], ["x1", "X1", "_x", "x"]]
+             ["A", "a"], ["x1", "X1", "_x", "x"],
+             # pairs whose order as wire strings differs from their order as Rust identifiers
+             ["DONE", "INACTIVE", "IN_PROGRESS"], ["FOOD", "FOO_BAR"], ["in", "in2", "out"], ["type", "typeA"], ["b", "B_a", "Ba"]]
     if tier == "thorough":
         sets += [list(p) for p in itertools.combinations(BASE[:8], 3)]
     return sets
@@ -165,6 +167,19 @@ def run(tier):
         d = debug_of.get(id(m), {})
         if len(set(d.values())) != len(d):
             rep.violation("two_schema_values_same_variant", m["label"], d, m["sigs"])
+        # "its own variant": the variant a value lands in must not be the one that is named after ANOTHER value of the enum
+        # (the user writes `E::InProgress` and means IN_PROGRESS). Names are predicted with the CamelCase model; only a
+        # demonstrable swap is reported.
+        if "two_values_same_rust_identifier" in m["sigs"]:
+            continue
+        ident = {}
+        for v in m["values"]:
+            i = camel(v) if m["norm"] == "rust" else v
+            ident[v] = i + "_" if (i in KEYWORDS or i in ("Other", "Self")) else i
+        for v, dbg in d.items():
+            others = {ident[o] for o in m["values"] if o != v}
+            if dbg != ident[v] and dbg in others:
+                rep.violation("schema_value_lands_in_another_values_variant", dict(m["label"], value=v), {"variant": dbg, "own_variant": ident[v]}, m["sigs"])
     cov = {
         "evaluations": len(reqs), "distinct_nontrivial": len(distinct),
         "rule": "enum definitions = all singles and pairs over an 11-name style alphabet (incl. Other / OTHER / other), every "
